@@ -140,6 +140,7 @@ func migrateApplyRun(cmd *cobra.Command, args []string, flags migrateApplyFlags,
 		if err = mux.mayRollback(ex.Execute(ctx, f)); err != nil {
 			break
 		}
+		verifPoint("file.done")
 		if err = mux.mayCommit(); err != nil {
 			break
 		}
